@@ -472,11 +472,7 @@ impl<T> DataReaderEntity<T> {
         );
 
         let is_max_samples_limit_reached = {
-            let total_samples = self
-                .sample_list
-                .iter()
-                .filter(|cc| cc.kind == ChangeKind::Alive)
-                .count();
+            let total_samples = self.sample_list.len();
 
             !replaces_oldest_sample && total_samples == self.qos.resource_limits.max_samples
         };
